@@ -1050,6 +1050,8 @@ func (s *Server) publishToClient(cl *Client, sub packets.Subscription, pk packet
 			out.Properties.SubscriptionIdentifier = append(out.Properties.SubscriptionIdentifier, id) // [MQTT-3.3.4-4] ![MQTT-3.3.4-5]
 		}
 		sort.Ints(out.Properties.SubscriptionIdentifier)
+	} else if sub.Identifier > 0 {
+		out.Properties.SubscriptionIdentifier = []int{sub.Identifier} // unmerged subscription, e.g. retained messages sent on subscribe [MQTT-3.3.4-3]
 	}
 
 	if out.FixedHeader.Qos > sub.Qos {
